@@ -25,6 +25,17 @@ for m in . ./loader ./issue_test ./generic_test ./fuzz ./external_jsonlib_test; 
   (cd $W/$m && go test -vet=off -count=1 -p 6 -timeout 40m ./... 2>&1 | grep -v "no test files" | grep -v "^ok" | tail -15) >> $log
   echo "-- module $m done" >> $log
 done
+# issue_test.TestPretouchSynteaRoot compares wall-clock ratios of successive decodes and fails on a loaded
+# machine with and without any change: when it is the only failure it is re-run alone (up to 4 times)
+if grep -q -- "--- FAIL: TestPretouchSynteaRoot" $log && [ "$(grep -c -- '^--- FAIL' $log)" = "1" ]; then
+  for k in 1 2 3 4; do
+    if (cd $W/issue_test && go test -vet=off -count=1 -run 'TestPretouchSynteaRoot$' . 2>&1 | grep -q "^ok"); then
+      echo "-- TestPretouchSynteaRoot re-run alone: ok (attempt $k)" >> $log; break
+    else
+      echo "-- TestPretouchSynteaRoot re-run alone: failed (attempt $k)" >> $log
+    fi
+  done
+fi
 fi
 cd /; git -C /repo worktree remove --force $W
 echo "confirmed $id: see $log"
